@@ -26,7 +26,8 @@ def run_generator(plugin: str, out_dir: str, models: Optional[Sequence[str]] = N
               "cwd"      - the same command from an unrelated working directory;
               "relative" - from the parent of the output directory, every path given relative to it;
               "minpath"  - as default, with a search path that holds no developer tools;
-              "elsewhen" - as default, on another day (clock shifted), as another user on another machine."""
+              "elsewhen" - as default, on another day (clock shifted), as another user on another machine whose file system
+                           lists directories in another order."""
     test_dir = os.path.join(out_dir, "_tests")
     cwd = REPO
     tmp_cwd = None
@@ -90,6 +91,18 @@ class date(_RealDate):
     def today(cls):
         return _RealDate.today() + _dt.timedelta(seconds=_D)
 _dt.datetime, _dt.date = datetime, date
+# another file system: directory entries come in another order (readdir order is unspecified)
+import os as _os
+_real_scandir, _real_listdir = _os.scandir, _os.listdir
+class _Scan:
+    def __init__(self, it): self._it = it; self._entries = iter(sorted(list(it), key=lambda e: e.name, reverse=True))
+    def __iter__(self): return self
+    def __next__(self): return next(self._entries)
+    def __enter__(self): return self
+    def __exit__(self, *a): self.close()
+    def close(self): self._it.close()
+_os.scandir = _Fn(lambda path=".": _Scan(_real_scandir(path)))
+_os.listdir = _Fn(lambda path=".": sorted(_real_listdir(path), reverse=True))
 """
 
 
